@@ -571,9 +571,29 @@ func (c *Case) path(i int) string {
 	return "root." + t.Name
 }
 
+// short is the second record of a task's result list: a function of the output that does not
+// repeat it (a result that contained the output twice would double in size with every level
+// of the dependency chain).
+func short(out string) string {
+	h := uint32(2166136261)
+	for i := 0; i < len(out); i++ {
+		h = (h ^ uint32(out[i])) * 16777619
+	}
+	return fmt.Sprintf("E%08x", h)
+}
+
+// capped keeps outputs from growing with the number of paths through the dependency graph:
+// long inputs enter the output as a digest.
+func capped(in string) string {
+	if len(in) <= 1500 {
+		return in
+	}
+	return fmt.Sprintf("#%d:%s", len(in), short(in))
+}
+
 func outOf(name string, in map[string]any) string {
 	j, _ := json.Marshal(in)
-	return name + "(" + string(j) + ")"
+	return name + "(" + capped(string(j)) + ")"
 }
 
 func buildModel(c *Case) *model {
@@ -663,11 +683,11 @@ func buildModel(c *Case) *model {
 				case "whole":
 					in.in[key] = map[string]any{"deep": "D" + p.out}
 				case "recs":
-					in.in[key] = []any{map[string]any{"n": "a", "v": p.out}, map[string]any{"n": "b", "v": "E" + p.out}}
+					in.in[key] = []any{map[string]any{"n": "a", "v": p.out}, map[string]any{"n": "b", "v": short(p.out)}}
 				case "rec0":
 					in.in[key] = p.out
 				case "comp":
-					in.in[key] = []any{p.out, "E" + p.out}
+					in.in[key] = []any{p.out, short(p.out)}
 				}
 				if d.Kind == "const" {
 					if !c.IgnoreConcrete {
@@ -801,9 +821,9 @@ func (r runner) Run(t *flow.Task, _ error) error {
 	if i := h.m.insts[path]; i != nil {
 		name = i.name
 	}
-	out := name + "(" + in + ")"
+	out := name + "(" + capped(in) + ")"
 	res := map[string]any{"out": out, "res": map[string]any{"deep": "D" + out},
-		"recs": []any{map[string]any{"n": "a", "v": out}, map[string]any{"n": "b", "v": "E" + out}}}
+		"recs": []any{map[string]any{"n": "a", "v": out}, map[string]any{"n": "b", "v": short(out)}}}
 	if i := h.m.insts[path]; i != nil && h.c.Tasks[i.spec].Role == "gen" {
 		res["lst"] = h.c.Tasks[i.spec].List
 	}
@@ -1088,7 +1108,7 @@ func judge(c *Case, m *model, h *harness, runErr error, final []byte, finalErr e
 	for _, p := range m.order {
 		in := m.insts[p]
 		resv := map[string]any{"out": in.out, "res": map[string]any{"deep": "D" + in.out},
-			"recs": []any{map[string]any{"n": "a", "v": in.out}, map[string]any{"n": "b", "v": "E" + in.out}}}
+			"recs": []any{map[string]any{"n": "a", "v": in.out}, map[string]any{"n": "b", "v": short(in.out)}}}
 		if c.Tasks[in.spec].Role == "gen" {
 			resv["lst"] = c.Tasks[in.spec].List
 		}
